@@ -27,7 +27,8 @@ LAY = {
     "D": {"a": ["start", "bottom"]},
     "W": {"w": "line:5%"},
 }
-STRS = {"plain": "ab", "sp": "a b", "amp": "a&b", "lt": "a<b", "gt": "a>b", "dq": "a\"b", "sq": "a'b", "mix": "<&\"'>"}
+STRS = {"plain": "ab", "sp": "a b", "amp": "a&b", "lt": "a<b", "gt": "a>b", "dq": "a\"b", "sq": "a'b", "mix": "<&\"'>",
+        "ent": "x&nbsp;y Caf&eacute; AT&T; z", "badref": "&#0; &#xZZ; &bogus; &amp;amp;", "cdend": "a]]>b", "ctrl": "a\u0085b\u2028c"}
 POSITIONS = ["text", "cap_color", "cap_font", "cap_size", "cap_align", "cap_class", "style_key", "style_val",
              "span_color", "span_class", "lang"]
 
@@ -138,7 +139,37 @@ def inputs(ctx):
                                 continue
                             ins.append({"id": "y%d" % n, "writer": w, "set": st, "opts": {}, "force": ""})
                             n += 1
-    docs = list(corpus.docs())
+    # regions nobody refers to: several layouts that end up unused (another language's under force=,
+    # plain text nodes' own layouts, which no element can reference) must all be cleaned up, whatever
+    # their number and order of creation
+    names = ["A", "B", "D", "E", "F"]
+    LAY.setdefault("E", {"o": [["5", "%"], ["5", "%"]]})
+    LAY.setdefault("F", {"o": [["15", "%"], ["25", "%"]], "e": [["40", "%"], ["20", "%"]]})
+    import itertools
+    for k in range(1, 5):
+        for combo in itertools.permutations(names, k) if k <= 2 else [tuple(names[:k]), tuple(reversed(names[:k])), tuple(names[1:k + 1])]:
+            other = {"lang": "fr-FR", "caps": [{"s": 1000000 * (i + 1), "e": 1000000 * (i + 1) + 500000, "layout": LAY[nm],
+                                                  "nodes": [["t", "fr %d" % i]]} for i, nm in enumerate(combo)]}
+            for mine in (None, "A", "B"):
+                en = {"lang": "en-US", "caps": [{"s": 1000000, "e": 2000000, "layout": LAY[mine] if mine else None,
+                                                 "nodes": [["t", "en"]]}]}
+                for order in ((en, other), (other, en)):
+                    for w in DW:
+                        for force in ("en-US", "fr-FR", ""):
+                            ins.append({"id": "f%d" % n, "writer": w, "set": {"langs": [order[0], order[1]]}, "opts": {}, "force": force})
+                            n += 1
+            # the same layouts on plain text nodes of one caption
+            nodes = []
+            for i, nm in enumerate(combo):
+                if i:
+                    nodes.append(["b"])
+                nodes.append(["t", "part %d" % i, LAY[nm]])
+            for caplay in (None, "A"):
+                for w in DW:
+                    ins.append({"id": "f%d" % n, "writer": w, "set": {"langs": [{"lang": "en-US", "caps": [
+                        {"s": 1000000, "e": 2000000, "layout": LAY[caplay] if caplay else None, "nodes": nodes}]}]}, "opts": {}, "force": ""})
+                    n += 1
+    docs = list(corpus.readable_docs())
     for d in docs:
         for w in DW:
             for force in ["", "en-US", "zz"]:
